@@ -254,7 +254,9 @@ def execute(schedule, ctx):
         # ---- arrays the caller passed to the constructor are the caller's: a solve must not write through to them
         for nm_, arr_, pristine_ in callers:
             if not bool(np.array_equal(arr_, pristine_, equal_nan=True)):
-                chk('frame/callers-array-changed', False, {'passed-for': nm_})
+                # only data passed in for variables that no equation assigns is covered by this property
+                if nm_ in nonendo:
+                    chk('frame/callers-array-changed', False, {'passed-for': nm_})
                 arr_[:] = pristine_
         # ---- reads and writes observed through the recording arrays
         _judge_reads(sink, spec, n, lags, leads, endo, chk, ctx.probe)
